@@ -1299,3 +1299,31 @@ func usedAsValue(c *Ctx, fn *ssa.Function) string {
 	}
 	return ""
 }
+
+// c19Delivery evaluates the delivery rules of notify (R-C19-3: a change is
+// offered to every subscription of its interface and sent to each whose mask
+// intersects it) for another property: C10's "a link-state change promptly
+// stops the task" holds only if the LinkDown the task subscribed to arrives.
+func c19Delivery(c *Ctx) {
+	for _, fn := range c.srcFuncs() {
+		if fn.Pkg == nil || fn.Pkg.Pkg.Path() != PkgNet {
+			continue
+		}
+		for _, b := range fn.Blocks {
+			for _, in := range b.Instrs {
+				x, ok := in.(*ssa.Select)
+				if !ok {
+					continue
+				}
+				for _, st := range x.States {
+					if st.Dir == types.SendOnly && isChangeChan(st.Chan.Type()) {
+						if anchorFuncs[c.fname(fn)] {
+							c19OnlyIf(c, fn, x, st)
+						}
+						c19OnlyIfPaths(c, fn, x, st)
+					}
+				}
+			}
+		}
+	}
+}
